@@ -464,6 +464,43 @@ def cond(prog, rep):
 ALLOWED_WRITERS = {"__init__", "_fit_mle", "_fit_lsq", "_set_default_parameter_values"}
 
 
+def _is_dist_class(ci):
+    return ci is not None and any(c.qualname == f"{DIST}.Distribution" for c in ci.mro)
+
+
+def _receiver_kind(prog, fn, node):
+    """'dist' / 'nondist' / 'unknown': can the object written to be a distribution?  self is decided by the class; a
+    parameter of a helper by what every call site in the package passes for it (self of which class)."""
+    if not isinstance(node, ast.Name):
+        return "unknown"
+    if node.id == "self" and fn.cls is not None:
+        return "dist" if _is_dist_class(fn.cls) else "nondist"
+    params = [a.arg for a in fn.node.args.posonlyargs + fn.node.args.args] if hasattr(fn.node, "args") else []
+    if node.id not in params:
+        return "unknown"
+    pos = params.index(node.id)
+    if fn.cls is not None and not fn.is_static and params and params[0] in ("self", "cls"):
+        pos -= 1
+    kinds = set()
+    for q, caller in prog.functions.items():
+        for c in ast.walk(caller.node):
+            if not isinstance(c, ast.Call):
+                continue
+            f = c.func
+            nm = f.id if isinstance(f, ast.Name) else f.attr if isinstance(f, ast.Attribute) else None
+            if nm != fn.name:
+                continue
+            arg = c.args[pos] if 0 <= pos < len(c.args) else next((k.value for k in c.keywords if k.arg == node.id), None)
+            if isinstance(arg, ast.Name) and arg.id == "self" and caller.cls is not None:
+                kinds.add("dist" if _is_dist_class(caller.cls) else "nondist")
+            else:
+                kinds.add("unknown")
+    if not kinds and fn.name.startswith("_") and not fn.name.startswith("__"):
+        # a private helper without a call site left: every call was merged into its caller (vstat/inliner.py) and is judged there
+        return "nondist"
+    return "nondist" if kinds == {"nondist"} else "dist" if kinds == {"dist"} else "unknown"
+
+
 def writers(prog, rep, fams):
     allp = set()
     for fam in fams:
@@ -481,7 +518,8 @@ def writers(prog, rep, fams):
             elif isinstance(node, ast.AugAssign):
                 tgts = [node.target]
             elif isinstance(node, ast.Call) and isinstance(node.func, ast.Name) and node.func.id == "setattr":
-                if not (fn.cls is not None and fn.cls.name == "ScipyDistribution"):
+                kind = _receiver_kind(prog, fn, node.args[0]) if node.args else "unknown"
+                if kind != "nondist" and not (fn.cls is not None and fn.cls.name == "ScipyDistribution"):
                     bad.append((q, node.lineno, "setattr(...) outside ScipyDistribution"))
                 n += 1
                 continue
@@ -495,7 +533,7 @@ def writers(prog, rep, fams):
                     if in_dist and is_self:
                         if fn.name not in ALLOWED_WRITERS and not q.endswith(".setter"):
                             bad.append((q, node.lineno, f"self.{t.attr} written in {fn.name}"))
-                    elif not is_self:
+                    elif not is_self and _receiver_kind(prog, fn, t.value) != "nondist":
                         bad.append((q, node.lineno, f"{ast.unparse(t)} written from outside the distribution"))
     rep.extra["C11.writers.sites"] = n
     if bad:
